@@ -598,3 +598,56 @@ def mode_predicates_agree(ck, cls, tag, rule):
         ck.ob(rule, sitestr(rs, c), not free, "%s: the mutex is held from the clearing of the worker pointer until wait()" % tag if not free else
               "%s: the worker pointer is cleared and the mutex released while the thread is still running: in that window process() already runs the pipeline in the caller's thread, but ownThreadIsRunning() "
               "is still true, so Logger::processMessage() skips the flush of a fatal message - the record and everything buffered before it are lost when Qt aborts" % tag, key="resetOwnThread|mode-window")
+
+
+def shared_instances_guard_their_state(ck, F, rid):
+    """a handler class that hands out one process-wide object (a static accessor returning a static) is shared by pipelines that lock independently:
+    whatever its per-message code writes in the object is written under a lock that belongs to the object"""
+    from engine.locks import LockFlow, MUTEX_CLASSES
+    n_cls = 0
+    for q, rec in sorted(F.records.items()):
+        if not q.startswith("QtLogger::") or "<" in q:
+            continue
+        fam = F.superclasses(q) if hasattr(F, "superclasses") else set()
+        acc = [f for f in F.fns.values() if f.cls == q and f.d.get("static") and f.body is not None and not f.params]
+        acc = [f for f in acc if any("static" in _origin(F, f, r.get("e")) for r in returns(f))]
+        if not acc:
+            continue
+        bases = set()
+        todo = [q]
+        while todo:
+            for b_ in (F.records.get(todo.pop()) or {}).get("bases", []):
+                if b_["type"] not in bases:
+                    bases.add(b_["type"])
+                    todo.append(b_["type"])
+        if "QtLogger::Handler" not in bases or "QtLogger::Pipeline" in bases:
+            continue            # pipelines (the Logger) are guarded by their own mutex: C02-O1..O4
+        n_cls += 1
+        short = q.split("::")[-1]
+        fields = [fl for fl in rec.get("fields", []) if not fl.get("static")]
+        mutexes = {q + "::" + fl["name"] for fl in fields if strip_tmpl((fl.get("type") or "").replace("mutable ", "")) in MUTEX_CLASSES}
+        roots = [f for f in F.fns.values() if f.cls == q and f.body is not None and f.name.split("::")[-1] in ("process", "format", "filter", "send", "attributes", "flush")]
+        reach = F.reachable_from(roots, virtual=False) if roots else set()
+        bad, n_w = [], 0
+        for fl in fields:
+            fq = q + "::" + fl["name"]
+            if fq in mutexes:
+                continue
+            for f_, n_, how_ in field_writes(F, fq):
+                if how_ == "ctor-init" or f_.id not in reach or f_.d.get("kind") in ("ctor", "dtor"):
+                    continue
+                n_w += 1
+                ff = F.flat(f_) if hasattr(F, "flat") else f_
+                g = Graph(f_)
+                lf = LockFlow(F, f_, g)
+                k = g.site_of(n_)
+                held = {m for m, _ in lf.IN.get(k, ())} if k is not None else set()
+                if not (held & mutexes):
+                    bad.append((f_, n_, fl["name"]))
+        for f_, n_, nm in bad[:3]:
+            ck.ob(rid, sitestr(f_, n_), False, "%s::instance() hands one %s to every pipeline that asks for it, and %s writes its member %s without holding a lock of the object: two pipelines (an installed logger "
+                  "and a second one) lock independently and run this code at the same time" % (short, short, strip_tmpl(f_.name).split("::")[-1] + "()", nm), key="shared-instance|%s|%s" % (short, nm))
+        if not bad:
+            ck.ob(rid, "%s (class %s)" % ((rec.get("file") or "").split("/src/")[-1], short), True, "%s hands out a process-wide object; its per-message code writes %d member%s, %s" %
+                  (short, n_w, "" if n_w == 1 else "s", "all under the object's own lock" if n_w else "none"), key="shared-instance|%s" % short)
+    ck.require(n_cls >= 3, "only %d handler classes with a process-wide instance() found (4 confirmed by hand)" % n_cls)
